@@ -50,6 +50,17 @@ def coord_dtype_rules(run, db):
         nvec += 1
         coord_names = set()
         bad_casts = []
+        # an index vector created in the dtype of the data, in the routine or in a helper of its module it calls
+        from .memo import _reach
+        for hq in sorted(_reach(db, [fi_], depth=2)):
+            h_ = db.func(hq)
+            if h_.module is not fi_.module:
+                continue
+            for n_ in ast.walk(h_.node):
+                if isinstance(n_, ast.Call) and ast.unparse(n_.func).split('.')[-1] in ('arange', 'fftrange', 'linspace', 'fftfreq', 'indices'):
+                    for k_ in n_.keywords:
+                        if k_.arg == 'dtype' and any(isinstance(x_, ast.Attribute) and x_.attr == 'dtype' and isinstance(x_.value, ast.Name) and x_.value.id in h_.params for x_ in ast.walk(k_.value)):
+                            bad_casts.append(n_)
         for n_ in walk_no_nested(fi_.node):
             if isinstance(n_, ast.Assign) and any(isinstance(c_, ast.Call) and ast.unparse(c_.func).split('.')[-1] in ('fftrange', 'arange', 'make_xy_grid', 'fftfreq') for c_ in ast.walk(n_.value)):
                 for t_ in n_.targets:
